@@ -1548,6 +1548,10 @@ def sym_paths(fv, root, limit=60000):
         for k_ in outer:
             if st.get(k_) == outer[k_]:
                 del st[k_]
+        # `x = v` on a path that established `x == v` for the entry value of x leaves x as it was
+        for k_, v_ in list(st.items()):
+            if k_[0] in ("field", "local") and any(pol_ and t_ == mk_bin("==", k_, v_) for t_, pol_, _n in sp.conds):
+                del st[k_]
         sp.state = st
         sp.exit = ex
         out.append(sp)
